@@ -55,9 +55,30 @@ def value_shapes(name, only=None):
     return [(n, t) for n, t in shapes if only is None or n in only]
 
 
-def p_pv(only=None):
-    """A Python value, one alternative per kind (explicit constructor term with fresh components)."""
-    return Maker(lambda ex, st, name: [(None, PV(t)) for _n, t in value_shapes(name, only)], desc="any Python value (by kind)")
+def describe(model, t):
+    """Readable rendering of a (small) value term under a model, for witnesses."""
+    try:
+        v = model.eval(t, model_completion=True)
+        s_ = v.sexpr()
+        return s_ if len(s_) < 400 else s_[:400] + "..."
+    except Exception as e:  # noqa
+        return f"<{e}>"
+
+
+def p_pv(only=None, other_kinds=None):
+    """A Python value, one alternative per kind (explicit constructor term with fresh components).
+    other_kinds: the foreign object kinds (c05spec.K_*) that may occur."""
+    def mk(ex, st, name):
+        alts = []
+        for n, t in value_shapes(name, only):
+            cond = None
+            if n == "Other" and other_kinds is not None:
+                cond = z3.Or([V.kind(t) == k for k in other_kinds])
+            alts.append((cond, PV(t)))
+            if n == "Other":
+                ex.witness_terms[name + ".kind-if-foreign-object"] = V.kind(t)
+        return alts
+    return Maker(mk, desc="any Python value (by kind)")
 
 
 def static_ph(v):
@@ -266,6 +287,7 @@ def contracts(reg):
         note="SER(value) if that is an object, else {'value': SER(value)}"))
     out.extend(decoder_contracts())
     out.extend(cli_contracts())
+    out.extend(store_site_contracts(reg))
     return out
 
 
@@ -408,6 +430,61 @@ def cli_contracts():
                            (n_of(c) != 1, VSeq(n_of(c), lambda j, c=c: units(c, RES(j)), "array of unit objects"))],
         raises=[Raises("Exception", sub=True, label="iterate_units() of a result failed (outside C05)")],
         note="--json-unit: the array of unit objects for one result, otherwise one such array per result"))
+    return out
+
+
+# ------------------------------------------------- Any-typed store sites --
+def result_scalar(c, idx=None):
+    r = c.result
+    if idx is not None:
+        if not isinstance(r, VTuple) or len(r.items) <= idx:
+            return F
+        r = r.items[idx]
+    t = c.ex.to_pv(c.st, r)
+    return sp.scalar_ok(t) if t is not None else F
+
+
+def m_xldate_as_tuple(ex, st, args, kwargs, node):
+    ex.exc_any(st.fork(), f"{ex.loc(node)} xlrd.xldate_as_tuple (XLDateError)")
+    return [(st, VTuple([VInt(z3.Int(fresh_name("dt"))) for _ in range(6)]))]
+
+
+XLRD_CTYPES = {"XL_CELL_EMPTY": 0, "XL_CELL_TEXT": 1, "XL_CELL_NUMBER": 2, "XL_CELL_DATE": 3, "XL_CELL_BOOLEAN": 4, "XL_CELL_ERROR": 5, "XL_CELL_BLANK": 6}
+
+
+def p_xlrd_cell():
+    """xlrd.sheet.Cell (ASSUMED library contract): ctype in 0..6; value is '' (empty/blank), str (text), float (number, date),
+    int (boolean 0/1, error code)."""
+    from pyvc.state import HeapObj
+
+    def mk(ex, st, name):
+        out = []
+        for ctype, shape in ((0, "Str"), (6, "Str"), (1, "Str"), (2, "Float"), (3, "Float"), (4, "Int"), (5, "Int")):
+            t = dict(value_shapes(f"{name}.value"))[shape]
+            ref = st.alloc(HeapObj("obj", {"ctype": VInt(ctype), "value": PV(t)}, "Cell", fresh=False), ex.refs)
+            out.append((None, VRef(ref)))
+        return out
+    return Maker(mk, desc="xlrd Cell")
+
+
+def store_site_contracts(reg):
+    from pyvc.verify import p_unk
+    for k, v in XLRD_CTYPES.items():
+        reg.ext_models[("const", f"xlrd.{k}")] = VInt(v)
+    reg.ext_models["xlrd.xldate_as_tuple"] = m_xldate_as_tuple
+    out = []
+    out.append(FnContract(
+        target=f"{XLSX_PY}::_get_cell_value",
+        params=[("cell_value", p_pv(only=("None", "Bool", "Int", "Float", "Str", "Other"),
+                                    other_kinds=(sp.K_DATETIME, sp.K_DATE, sp.K_TIME, sp.K_TIMEDELTA)))],
+        ensures=[("json-able-scalar-into-Any-field", lambda c: result_scalar(c))],
+        note="what XlsxSheet.data (List[List[Any]] / TableData.data) receives: None/bool/int/float/str only. Input kinds: the value "
+             "types openpyxl's reader produces (None, bool, int, float, str, datetime, date, time, timedelta)"))
+    out.append(FnContract(
+        target=f"{XLS_PY}::_get_cell_values",
+        params=[("cell", p_xlrd_cell()), ("workbook", p_unk())],
+        ensures=[("json-able-scalar-into-Any-field", lambda c: result_scalar(c, 0))],
+        note="what XlsSheet.data (List[Dict[str, Any]]) receives as value: None/bool/int/float/str only"))
     return out
 
 
